@@ -707,8 +707,6 @@ class CallsMixin:
                     self.assume(self.ev_spec(cl.expr))
             finally:
                 self.old = saved_old
-            if not self.feasible(z3.BoolVal(True) if not self.pc else self.pc[-1]):
-                raise PathEnd()
             return result
         finally:
             if self.frames[-1] is not caller:
@@ -752,6 +750,8 @@ class CallsMixin:
                     out.add('cls')
                 elif isinstance(n, ast.Call):
                     name = None
+                    if isinstance(n.func, ast.Name) and n.func.id == 'next':
+                        out.add('gen.pos')
                     if isinstance(n.func, ast.Attribute):
                         name = n.func.attr
                         if name in LIST_METHODS:
@@ -1218,8 +1218,42 @@ class CallsMixin:
     def str_to_int(self, s, node):
         raise OutOfSubset('int(str)')
 
+    GEN_EXC = {0: 'StopIteration', 1: 'DecoderError'}
+
     def bi_next(self, b, args, kwargs, node):
-        raise OutOfSubset('next()')
+        it = self.val(args[0])
+        t = static_tag(it) or self.tag(it)
+        if t != 'VRef' or self.ref_kind(it, ['gen']) != 'gen':
+            raise OutOfSubset('next() of non-generator')
+        a = Value.a(it)
+        pos = z3.Select(self.field('gen.pos'), a)
+        n = z3.Select(self.field('gen.n'), a)
+        if not self.branch(pos < n):
+            exc = z3.Select(self.field('gen.exc'), a)
+            if self.branch(exc == 0):
+                raise PyExc('StopIteration', 'next(%s)' % self.snippet(node.args[0]))
+            raise PyExc('DecoderError', 'generator raised at exhaustion in next(%s)' % self.snippet(node.args[0]))
+        self.check_write(a, node)
+        item = z3.simplify(z3.Select(z3.Select(self.field('gen.items'), a), pos))
+        ety = self.iter_elem.get(z3.simplify(a).sexpr())
+        if ety:
+            self.assume(self.type_constraint(item, ety))
+        self.heap['gen.pos'] = z3.Store(self.field('gen.pos'), a, pos + 1)
+        return item
+
+    def sp_iter_pos(self, node):
+        return VInt(z3.Select(self.field('gen.pos'), Value.a(self.val(self.ev(node.args[0])))))
+
+    def sp_iter_len(self, node):
+        return VInt(z3.Select(self.field('gen.n'), Value.a(self.val(self.ev(node.args[0])))))
+
+    def sp_iter_exc(self, node):
+        return VInt(z3.Select(self.field('gen.exc'), Value.a(self.val(self.ev(node.args[0])))))
+
+    def sp_iter_item(self, node):
+        it = self.val(self.ev(node.args[0]))
+        k = self.as_int(self.ev(node.args[1]))
+        return z3.Select(z3.Select(self.field('gen.items'), Value.a(it)), k)
 
     def bi_print(self, b, args, kwargs, node):
         return VNone
